@@ -70,6 +70,8 @@ CONV = {
     "float": lambda rng: rng.choice([0.0, 1.5, 12.25, 1e15, 0.1 + 0.2, round(rng.random() * 1000, 3)]),
     "float(signed=True)": lambda rng: rng.choice([-0.0, -1.5, 3.0, -round(rng.random() * 1000, 3)]),
     'any(foo,bar,"a b")': lambda rng: rng.choice(["foo", "bar", "a b"]),
+    # alternatives that contain URL-reserved and non-ASCII characters are values like any other
+    'any("a?b","e#f","50%","\u00fc x","q;r")': lambda rng: rng.choice(["a?b", "e#f", "50%", "\u00fc x", "q;r"]),
     "uuid": lambda rng: uuid.UUID(int=rng.getrandbits(128)),
     "path": lambda rng: "/".join((seg_text(rng, 1, 3).replace("/", "") or "x") for _ in range(rng.randint(1, 3))),
 }
